@@ -29,6 +29,9 @@ structure St where
   loopW : Wm.Watermarker := Wm.Watermarker.new 0   -- the runner's watermarker when the current deployment started
   loopMax : Int := Wm.zeroTime           -- spec side: largest event timestamp forwarded in earlier deployments
   loopShown : List Nat := []
+  loopStarted : Bool := false            -- the runner has been deployed (first loop operation seen)
+  loopFirstEmpty : Bool := false         -- the first assignment round of a deployment is empty
+  loopReading : Bool := true             -- the runner has been assigned a split (its source is being read)
   ids : List String := []
   msgs : List (String × Int) := []
   -- operator mode, specification side: the timer-set specification decides which timers may reach the handler
@@ -184,8 +187,17 @@ def stepOp (st : St) : List String → St × String
   | _ => (st, "bad-op")
 
 def step (st : St) : List String → St × String
-  | "lread" :: raws => ({ st with loopEvs := st.loopEvs ++ raws.map (parseRawK st.loopK) }, "ok")
-  | ["ltick"] => ({ st with loopEvs := st.loopEvs ++ [.tick] }, "ok")
+  | "lread" :: raws =>
+    -- nothing can be read before the runner has a split (the harness answers without touching the runner)
+    if !st.loopReading then ({ st with loopStarted := true }, "no-split") else
+    ({ st with loopStarted := true, loopEvs := st.loopEvs ++ raws.map (parseRawK st.loopK) }, "ok")
+  | ["ltick"] => ({ st with loopStarted := true, loopEvs := st.loopEvs ++ [.tick] }, "ok")
+  -- a split-assignment round (`HandleAssignSplits`, empty or not) does not touch the watermarker: an idle runner's
+  -- ticks are stamped like any other (`CurrentWatermark()` of what it has forwarded so far), so `wm_monotone_partial` applies
+  | ["lassign", a] =>
+    if !st.loopStarted then
+      ({ st with loopStarted := true, loopFirstEmpty := a == "0", loopReading := a != "0" }, "ok")
+    else ({ st with loopReading := st.loopReading || a != "0" }, "ok")
   | ["ldrain"] =>
     let k := if st.loopK = 0 then 1 else st.loopK
     let b := Wm.batchSize st.loopN
@@ -196,13 +208,13 @@ def step (st : St) : List String → St × String
     let line (l : List Wm.SEv) (j : Nat) := if (l.drop (shown j)).isEmpty then "-" else joinWith "," ((l.drop (shown j)).map showSEv)
     let model := joinWith " | " ((List.range k).map fun j => line (ds.getD j []) j)
     let specLine := joinWith " | " ((List.range k).map fun j => line ((Wm.streamOf j spec).take (ds.getD j []).length) j)
-    ({ st with loopShown := ds.map (·.length) }, withSpec model specLine)
+    ({ st with loopStarted := true, loopShown := ds.map (·.length) }, withSpec model specLine)
   | ["ldeploy"] =>
     -- `HandleDeploy` again on the same runner: new operator cluster (empty batchers), the watermarker is kept
     let b := Wm.batchSize st.loopN
     let tagged := Wm.sentTagged st.loopW (Wm.sentPrefixK (Wm.rawCountK st.loopEvs / b * b) st.loopEvs)
     ({ st with loopW := Wm.stateAfterSent st.loopN st.loopW st.loopEvs, loopMax := maxEvTagged st.loopMax tagged,
-               loopEvs := [], loopShown := [] }, "ok")
+               loopEvs := [], loopShown := [], loopStarted := true, loopReading := !st.loopFirstEmpty }, "ok")
   | "evs" :: ts =>
     ({ st with w := (Wm.runnerStep st.w (.events (ts.map intOr))).1,
                maxSeen := (ts.map intOr).foldl (fun m x => if x > m then x else m) st.maxSeen }, "ok")
